@@ -205,9 +205,14 @@ def basis_spline(  # pylint: disable=dangerous-default-value  # always replaced 
                 + (1 - alpha(i + 1, d)) * cache[(d - 1) % 2][i + 1]
             )
 
+    # Comparisons with nan are false and the weights of degenerate (tied) knot
+    # intervals are constant, so missing / out-of-bounds ('na') values do not
+    # reach every basis function through the recursion: propagate explicitly.
+    nan_rows = numpy.isnan(x)
+
     return FactorValues(
         {
-            i: cache[degree % 2][i]
+            i: numpy.where(nan_rows, numpy.nan, cache[degree % 2][i])
             for i in sorted(cache[degree % 2])
             if i > 0 or include_intercept
         },
